@@ -49,8 +49,10 @@ theorem rt : (e : Expr) → WF e → RT e
     intro k term rest out hterm hle hk htf hno hfin
     have htoks : toks (fmtBody (.lit n)) = [.lit n] := by
       simp only [fmtBody, fmtSub]
-      rw [show needParen precLiteral topPrec topSide = false by decide, wrap_false, litOk_toks n hwf]
+      rw [needParen_top_lit, wrap_false, litOk_toks n hwf]
     rw [htoks]
+    have hl0 : (Expr.lit n).lvl = 0 := by simp [Expr.lvl, litOk_not_negative n hwf]
+    rw [hl0] at hle hfin
     have hp : Parses 0 term ([.lit n] ++ rest) (.lit n, rest) :=
       ⟨1, fun f hf => by obtain ⟨f', rfl, _⟩ := succ_of_pos hf; simp [parseLvl]⟩
     exact finish_nonloop hp (Or.inl rfl) (Nat.zero_le _) (fun _ => by simp [NoPrefix, prefixOp]) hno hfin
@@ -188,31 +190,49 @@ theorem rt : (e : Expr) → WF e → RT e
     have iho := rt o hwf
     have hlvl : (Expr.mem o n).lvl = 1 := rfl
     rw [hlvl] at hle hfin
-    have htoks : toks (fmtBody (.mem o n)) = toks (fmtSub o precMember memObjectSide) ++ [.p .Period, .id n] := by
+    have hNP : NoPrefix (toks (fmtBody (.mem o n)) ++ rest) := by
+      obtain ⟨t, ts', h1, h2, h3⟩ := head_fmt (.mem o n) hwf topPrec topSide
+      have h1' : toks (fmtBody (.mem o n)) = t :: ts' := h1
+      rw [h1']
+      simp only [List.cons_append, NoPrefix]
+      exact h3 (Or.inr (by simp [Expr.lvl]))
+    have htoks : toks (fmtBody (.mem o n)) =
+        toks (wrap (memObjParen o) (fmtSub o precMember memObjectSide)) ++ [.p .Period, .id n] := by
       simp only [fmtBody, fmtSub]
       rw [show needParen precMember topPrec topSide = false by decide, wrap_false]
       simp [pp]
-    rw [htoks]
-    simp only [List.append_assoc, List.cons_append, List.nil_append]
-    refine finish_loop (lv := 1) ?_ (by decide) hle ?_ hno hfin
-    · intro out' hc
+    rw [htoks] at hNP ⊢
+    simp only [List.append_assoc, List.cons_append, List.nil_append] at hNP ⊢
+    refine finish_loop (lv := 1) ?_ (by decide) hle (fun _ => hNP) hno hfin
+    intro out' hc
+    have hfin' : ∀ lv, Fin o lv 1 term (.p .Period :: .id n :: rest) out' := by
+      intro lv
+      apply fin_of_conts _ _ _ _ _ _ (by decide)
+      obtain ⟨N, h⟩ := hc
+      refine ⟨N + 1, fun f hf => ?_⟩
+      obtain ⟨f', rfl, hf'⟩ := succ_of_pos hf
+      unfold cont
+      simp [h f' hf']
+    cases hmp : memObjParen o with
+    | false =>
+      rw [wrap_false]
       apply rts iho _ _ 1 term (.p .Period :: .id n :: rest) out' hterm (by omega)
       · exact fun hp => ⟨pos_postfixLike o _ (Or.inl rfl) hp, fun h => by have := pos_postfixLike o _ (Or.inl rfl) hp; omega⟩
       · exact fun i h1 h2 => by omega
-      · apply fin_of_conts _ _ _ _ _ _ (by decide)
-        obtain ⟨N, h⟩ := hc
-        refine ⟨N + 1, fun f hf => ?_⟩
-        obtain ⟨f', rfl, hf'⟩ := succ_of_pos hf
-        unfold cont
-        simp [h f' hf']
-    · intro _
-      obtain ⟨t, ts', h1, h2, h3⟩ := head_fmt o hwf precMember memObjectSide
-      rw [h1]
-      simp only [List.cons_append, NoPrefix]
-      apply h3
-      cases hpx : needParen o.prec precMember memObjectSide with
-      | true => exact Or.inl rfl
-      | false => exact Or.inr (pos_postfixLike o _ (Or.inl rfl) hpx)
+      · exact hfin' _
+    | true =>
+      -- `(1).m`: the object is an integer literal, printed in parentheses of its own
+      have hnp : needParen o.prec precMember memObjectSide = false := by
+        cases o with
+        | lit l =>
+          have : LitOk l = true := hwf
+          simp only [Expr.prec, litPrec_of_ok l this]; decide
+        | _ => simp [memObjParen] at hmp
+      rw [toks_wrap_true, fmtSub_eq, hnp, wrap_false]
+      have h0 := parses_paren iho term (.p .Period :: .id n :: rest)
+      simp only [List.cons_append, List.append_assoc, List.nil_append] at h0 ⊢
+      exact finish_nonloop h0 (Or.inl rfl) (Nat.zero_le _) (fun _ => by simp [NoPrefix, prefixOp])
+        (fun i h1 h2 => by omega) (hfin' 0)
   | .sub o i, hwf => by
     intro k term rest out hterm hle hk htf hno hfin
     have iho := rt o hwf.1
